@@ -60,7 +60,7 @@ def per_path(sc, case, i, p, base):
     hyps = sc.all_hyps(case) + list(p.pc)
     T = actual.get('temperature')
     for label, res in specs:
-        name = 'C01/%s/pde[%s]' % (base, label)
+        name = 'C01/%s/pde:%s' % (base, label)
         missing = [n for n in F.f if res.has(F.f[n]) and n not in actual]
         if missing:
             out.append(core.Obl(name, 'refuted', 'structural', 0.0, goal=label, detail='returned solution has no field(s) %s' % missing, cex=None)); continue
